@@ -3,7 +3,9 @@
    Usage: hxt <nthreads> <seed> [sys|internal]   (op lines on stdin; 3rd arg selects the random generator, set before any thread starts)
    Output: line 1: "init zero=<#threads that got 0> one=<#1> other=<#anything else> early=<#threads that saw
                     an uninitialised library after sodium_init returned>"
-           then one line per op: the common output, or "THREAD-DIFF t<i>=<..> t<j>=<..>" when two threads disagree. */
+           then one line per op: the common output, or "THREAD-DIFF t<i>=<..> t<j>=<..>" when two threads disagree;
+           last line: "shared rounds=<R> bad=<n> <first failure|->": R rounds in which all threads use the SAME const inputs (keys, precomputed AES-GCM state,
+           messages) at once, first use of each precomputed state included, compared with single-threaded one-shot references. */
 #define _GNU_SOURCE
 #include "hx.h"
 #include <pthread.h>
@@ -14,6 +16,64 @@ static char **lines; static size_t nlines;
 static int nthreads; static unsigned seed;
 static pthread_barrier_t bar;
 typedef struct { int id; int ret; int early; char **out; } thr_t;
+
+/* ---- shared CONST inputs (C19: "on distinct buffers" are the OUTPUT buffers; keys, precomputed states, messages and public keys may be the same
+   const objects in every thread).  Per round thread 0 prepares fresh shared inputs and single-threaded reference outputs (one-shot, key-based APIs only, so a
+   precomputed state is first USED concurrently), then all threads use the same const objects at once and compare with the references. */
+#define SH_ROUNDS 24
+#define SH_MAX 1024
+static pthread_barrier_t shbar;
+static int sh_bad; static char sh_first[160];
+static struct {
+    unsigned char k[32], n24[24], sk[64], pk[32], bsk[32], bpk[32], bk[32], m[SH_MAX], ad[SH_MAX]; size_t mlen, adlen;
+    int have_gcm; crypto_aead_aes256gcm_state gcm;
+    unsigned char r_gcm_c[SH_MAX], r_gcm_mac[16], r_cp_c[SH_MAX + 16], r_box_c[SH_MAX + 16], r_sig[64], r_gh[64], r_auth[32], r_sh[8], r_sm[32], r_xc_c[SH_MAX + 16];
+} sh;
+static void sh_fill(unsigned char *p, size_t n, unsigned *s) { size_t i; for (i = 0; i < n; i++) p[i] = (unsigned char) (*s = *s * 1103515245u + 12345u, *s >> 16); }
+static void sh_prepare(int round) {
+    static const size_t lens[] = { 0, 1, 15, 16, 17, 47, 48, 49, 63, 64, 65, 111, 112, 113, 223, 224, 225, 255, 256, 257, 511, 512, 1000, 1024 };
+    unsigned s = seed * 7919u + (unsigned) round * 104729u + 1u; unsigned char seedb[32];
+    sh.mlen = lens[(size_t) round % (sizeof lens / sizeof lens[0])]; sh.adlen = lens[((size_t) round * 7 + 3) % (sizeof lens / sizeof lens[0])];
+    sh_fill(sh.k, 32, &s); sh_fill(sh.n24, 24, &s); sh_fill(sh.m, SH_MAX, &s); sh_fill(sh.ad, SH_MAX, &s); sh_fill(seedb, 32, &s);
+    crypto_sign_seed_keypair(sh.pk, sh.sk, seedb); sh_fill(seedb, 32, &s); crypto_box_seed_keypair(sh.bpk, sh.bsk, seedb);
+    (void) crypto_box_beforenm(sh.bk, sh.bpk, sh.bsk);
+    sh.have_gcm = crypto_aead_aes256gcm_is_available();
+    if (sh.have_gcm) {
+        crypto_aead_aes256gcm_encrypt_detached(sh.r_gcm_c, sh.r_gcm_mac, NULL, sh.m, sh.mlen, sh.ad, sh.adlen, NULL, sh.n24, sh.k);
+        crypto_aead_aes256gcm_beforenm(&sh.gcm, sh.k);      /* prepared, not yet used */
+    }
+    crypto_aead_chacha20poly1305_ietf_encrypt(sh.r_cp_c, NULL, sh.m, sh.mlen, sh.ad, sh.adlen, NULL, sh.n24, sh.k);
+    crypto_aead_xchacha20poly1305_ietf_encrypt(sh.r_xc_c, NULL, sh.m, sh.mlen, sh.ad, sh.adlen, NULL, sh.n24, sh.k);
+    crypto_box_easy(sh.r_box_c, sh.m, sh.mlen, sh.n24, sh.bpk, sh.bsk);
+    crypto_sign_detached(sh.r_sig, NULL, sh.m, sh.mlen, sh.sk);
+    crypto_generichash(sh.r_gh, 64, sh.m, sh.mlen, sh.k, 32); crypto_auth(sh.r_auth, sh.m, sh.mlen, sh.k); crypto_shorthash(sh.r_sh, sh.m, sh.mlen, sh.k);
+    (void) crypto_scalarmult(sh.r_sm, sh.bsk, sh.bpk);
+}
+static void sh_fail(int id, int round, const char *what) {
+    if (__sync_fetch_and_add(&sh_bad, 1) == 0) snprintf(sh_first, sizeof sh_first, "round=%d thread=%d mlen=%zu adlen=%zu %s", round, id, sh.mlen, sh.adlen, what);
+}
+static void sh_use(int id, int round) {
+    unsigned char c[SH_MAX + 16], mac[64], d[SH_MAX + 16]; unsigned long long l;
+    if (sh.have_gcm) {
+        crypto_aead_aes256gcm_encrypt_detached_afternm(c, mac, NULL, sh.m, sh.mlen, sh.ad, sh.adlen, NULL, sh.n24, &sh.gcm);
+        if (memcmp(c, sh.r_gcm_c, sh.mlen) || memcmp(mac, sh.r_gcm_mac, 16)) sh_fail(id, round, "aes256gcm encrypt_detached_afternm with a shared precomputed state differs from the one-shot result");
+        if (crypto_aead_aes256gcm_decrypt_detached_afternm(d, NULL, sh.r_gcm_c, sh.mlen, sh.r_gcm_mac, sh.ad, sh.adlen, sh.n24, &sh.gcm) != 0 || memcmp(d, sh.m, sh.mlen))
+            sh_fail(id, round, "aes256gcm decrypt_detached_afternm with a shared precomputed state rejects / mis-decrypts a valid ciphertext");
+    }
+    crypto_aead_chacha20poly1305_ietf_encrypt(c, &l, sh.m, sh.mlen, sh.ad, sh.adlen, NULL, sh.n24, sh.k);
+    if (memcmp(c, sh.r_cp_c, sh.mlen + 16)) sh_fail(id, round, "chacha20poly1305_ietf with shared const inputs");
+    crypto_aead_xchacha20poly1305_ietf_encrypt(c, &l, sh.m, sh.mlen, sh.ad, sh.adlen, NULL, sh.n24, sh.k);
+    if (memcmp(c, sh.r_xc_c, sh.mlen + 16)) sh_fail(id, round, "xchacha20poly1305_ietf with shared const inputs");
+    if (crypto_box_easy_afternm(c, sh.m, sh.mlen, sh.n24, sh.bk) != 0 || memcmp(c, sh.r_box_c, sh.mlen + 16)) sh_fail(id, round, "box_easy_afternm with a shared precomputed key");
+    if (crypto_box_open_easy(d, sh.r_box_c, sh.mlen + 16, sh.n24, sh.bpk, sh.bsk) != 0 || memcmp(d, sh.m, sh.mlen)) sh_fail(id, round, "box_open_easy with shared keys");
+    crypto_sign_detached(mac, NULL, sh.m, sh.mlen, sh.sk);
+    if (memcmp(mac, sh.r_sig, 64)) sh_fail(id, round, "sign_detached with a shared secret key");
+    if (crypto_sign_verify_detached(sh.r_sig, sh.m, sh.mlen, sh.pk) != 0) sh_fail(id, round, "sign_verify_detached with shared inputs");
+    crypto_generichash(mac, 64, sh.m, sh.mlen, sh.k, 32); if (memcmp(mac, sh.r_gh, 64)) sh_fail(id, round, "generichash with a shared key");
+    crypto_auth(mac, sh.m, sh.mlen, sh.k); if (memcmp(mac, sh.r_auth, 32)) sh_fail(id, round, "auth with a shared key");
+    crypto_shorthash(mac, sh.m, sh.mlen, sh.k); if (memcmp(mac, sh.r_sh, 8)) sh_fail(id, round, "shorthash with a shared key");
+    if (crypto_scalarmult(mac, sh.bsk, sh.bpk) != 0 || memcmp(mac, sh.r_sm, 32)) sh_fail(id, round, "scalarmult with shared inputs");
+}
 
 static unsigned rnd(unsigned *s) { *s = *s * 1103515245u + 12345u; return (*s >> 16) & 0x7fff; }
 
@@ -39,6 +99,12 @@ static void *worker(void *arg_) {
         t->out[idx] = buf;
         if ((rnd(&s) & 63) == 0) sched_yield();
     }
+    { int r; for (r = 0; r < SH_ROUNDS; r++) {
+        pthread_barrier_wait(&shbar);
+        if (t->id == 0) sh_prepare(r);
+        pthread_barrier_wait(&shbar);
+        sh_use(t->id, r);
+    } }
     return NULL;
 }
 
@@ -54,7 +120,7 @@ int main(int argc, char **argv) {
         lines[nlines++] = strdup(line);
     }
     th = (pthread_t *) calloc((size_t) nthreads, sizeof *th); ts = (thr_t *) calloc((size_t) nthreads, sizeof *ts);
-    pthread_barrier_init(&bar, NULL, (unsigned) nthreads);
+    pthread_barrier_init(&bar, NULL, (unsigned) nthreads); pthread_barrier_init(&shbar, NULL, (unsigned) nthreads);
     for (i = 0; i < nthreads; i++) { ts[i].id = i; ts[i].ret = -99; ts[i].out = (char **) calloc(nlines + 1, sizeof(char *)); pthread_create(&th[i], NULL, worker, &ts[i]); }
     for (i = 0; i < nthreads; i++) pthread_join(th[i], NULL);
     for (i = 0; i < nthreads; i++) { if (ts[i].ret == 0) zero++; else if (ts[i].ret == 1) one++; else other++; if (ts[i].early) early++; }
@@ -65,5 +131,6 @@ int main(int argc, char **argv) {
         if (diff < 0) puts(ts[0].out[k]);
         else printf("THREAD-DIFF t0=%s t%d=%s\n", ts[0].out[k], diff, ts[diff].out[k]);
     }
+    printf("shared rounds=%d bad=%d %s\n", SH_ROUNDS, sh_bad, sh_bad ? sh_first : "-");
     return 0;
 }
